@@ -232,13 +232,20 @@ Fixpoint process_caps (lvl : level) (ti rev : option bool) (caps : list cap) (rs
   | CapOther :: caps' => process_caps lvl ti rev caps' rs   (* never in capabilitiesToVerify *)
   end.
 
-(* every attribute handed to the plugin must be listed as processed *)
+(* processPluginResponse, attribute accounting (fix 6f898df): every CRITICAL
+   non-plugin extended attribute must be listed as processed; a non-critical
+   one need not be *)
+Definition crit_processed (sc : scenario) (processed : list string) : bool :=
+  forallb (fun k => mem_str k processed) (other_crit sc).
+
+(* before 6f898df: every attribute handed to the plugin, critical or not *)
 Definition all_processed (sc : scenario) (processed : list string) : bool :=
   forallb (fun k => mem_str k processed) (other_keys sc).
 
-Definition process_plugin_response (lvl : level) (sc : scenario) (caps : list cap)
-           (processed : list string) (ti rev : option bool) (rs : list result) : err * list result :=
-  if negb (all_processed sc processed) then (EOther, rs)
+Definition process_plugin_response (chk : scenario -> list string -> bool) (lvl : level) (sc : scenario)
+           (caps : list cap) (processed : list string) (ti rev : option bool) (rs : list result)
+  : err * list result :=
+  if negb (chk sc processed) then (EOther, rs)
   else process_caps lvl ti rev caps rs.
 
 (* capabilitiesToVerify: the revocation capability is dropped when the level skips revocation *)
@@ -253,8 +260,10 @@ Definition any_critical_attribute (sc : scenario) : bool :=
   | [] => match s_minver_attr sc with AAbsent | ANotCritical => false | _ => true end
   end.
 
-(* ---------- processSignature ---------- *)
-Definition process_signature (lvl : level) (sc : scenario) : obs :=
+(* ---------- processSignature ----------
+   [chk] is the attribute accounting of processPluginResponse: [crit_processed]
+   for the code as it is now, [all_processed] for the code before 6f898df *)
+Definition process_signature_gen (chk : scenario -> list string -> bool) (lvl : level) (sc : scenario) : obs :=
   if negb (s_integrity_ok sc)
   then mk_obs (EResult TIntegrity) [mk_res TIntegrity Enforce true] false [] None else
   let integ := mk_res TIntegrity Enforce false in
@@ -273,7 +282,7 @@ Definition process_signature (lvl : level) (sc : scenario) : obs :=
             match s_presp sc with
             | PErr => mk_obs EOther rs4 called gets exec
             | PResp processed ti rev =>
-                let '(e, rs5) := process_plugin_response lvl sc to_verify processed ti rev rs4 in
+                let '(e, rs5) := process_plugin_response chk lvl sc to_verify processed ti rev rs4 in
                 mk_obs e rs5 called gets exec
             end
         | [] =>
@@ -285,4 +294,8 @@ Definition process_signature (lvl : level) (sc : scenario) : obs :=
     end
   end.
 
+Definition process_signature := process_signature_gen crit_processed.
 Definition verify_core := process_signature.
+
+(* the pre-fix behaviour, kept for C02_noncritical_strictness_v0_refuted *)
+Definition verify_core_v0 := process_signature_gen all_processed.
